@@ -10,7 +10,7 @@ RULE = ('table of (operation, state in which it can complete without waiting) x 
         'before: await of true conditions / done task / ended scope / instant, sleep 0, flag and tracked sets (changing or not), '
         'queue and channel put/get(buffered)/close (open or closed)/iteration, borrow/claim/give back, '
         'increase/decrease/set, pipe transfers (zero volume, unbounded, finite), interval/delay steps incl. period 0, collect '
-        '(empty and non-empty), leaving an (empty) scope block, tickers whose steps pass no time (body takes exactly the period, period 0) next to activities that stay runnable; each spinner must log a turn between the start marker 100 and the '
+        '(empty and non-empty), leaving an (empty) scope block, giving borrowed / claimed resources back when the block is left normally, by an exception, by the interrupt of an until-scope or by a cancellation of the task of the holder (next to activities that stay runnable), tickers whose steps pass no time (body takes exactly the period, period 0) next to activities that stay runnable; each spinner must log a turn between the start marker 100 and the '
         'completion marker 101 of the operation; the table is enumerated completely in every run (exhaustive over the table); '
         'thorough adds random prefixes; non-trivial = every case')
 
@@ -88,8 +88,37 @@ def ticker_case(stmt, period, k, offset=0):
     return ['scenario', ['debug', 1], ['start', 0], ['flags', 1], ['locks', 0], ['roots'] + roots]
 
 
+#: leaving a borrow / claim block while holding: (name, how the holder is thrown out)
+GIVE_BACK = ['normal', 'until-flag', 'until-time', 'cancel', 'exception']
+
+
+def give_back_case(how, k, claim=False, res=0):
+    """root 0 holds resources and leaves the block (normally, by the interrupt of an until-scope, by a cancellation of its
+    task, by an exception of its own) next to k root activities that stay runnable"""
+    amounts = [1, 1] if res == 0 else [2]
+    block = lambda body: [('claim' if claim else 'borrow'), res, amounts, 5] + body
+    if how == 'normal':
+        holder = [block([['sleep', 1]])]
+    elif how == 'until-flag':
+        holder = [['scope', 8, ['cond', ['flag', 0]], block([['await', ['eternity']]])]]
+    elif how == 'until-time':
+        holder = [['scope', 8, ['delay', 1], block([['await', ['eternity']]])]]
+    elif how == 'cancel':
+        holder = [['try', ['body', ['scope', 8, ['none'], ['spawn', 8, 40, None, None, False, ['prog'] + [block([['await', ['eternity']]])]],
+                                    ['sleep', 1], ['cancel', 40, 3], ['sleep', 1]]],
+                   ['handler', ['pats', 'anyException'], ['body', ['log', 7]]]]]
+    else:
+        holder = [['try', ['body', block([['sleep', 1], ['raise', 0]])], ['handler', ['pats', ['user', 0]], ['body', ['log', 7]]]]]
+    roots = [['prog'] + holder + [['log', 101]]]
+    spin = ([['sleep', 0], None] * 8 + [['sleep', 1]]) * 3
+    for i in range(k):
+        roots.append(['prog'] + [['log', 200 + i] if x is None else x for x in spin])
+    roots.append(['prog', ['sleep', 1], ['set', 0, True]])
+    return ['scenario', ['debug', 1], ['start', 0], ['flags', 2], ['locks', 0], ['resources', ['res', 0, 5, 5], ['res', 1, 4]], ['roots'] + roots]
+
+
 def run(tier, seed, drv):
-    st = msuite.Suite(PID, drv, 'C20', TAGS + ['tick', 'tbodyend', 'tbegin'])
+    st = msuite.Suite(PID, drv, 'C20', TAGS + ['tick', 'tbodyend', 'tbegin', 'bbody', 'bexit'])
     st.res.rule = RULE
     for name, stmt, period in TICKERS:
         for k in (1, 2, 3):
@@ -97,6 +126,13 @@ def run(tier, seed, drv):
                 st.judge_params = str(k)
                 st.check(ticker_case(stmt, period, k, offset), meta={'operation': name, 'spinners': k}, nontrivial=lambda impl: True)
                 st.res.count('op:' + name)
+    for how in GIVE_BACK:
+        for k in (1, 2, 3):
+            for claim in (False, True):
+                for res in (0, 1):
+                    st.judge_params = str(k)
+                    st.check(give_back_case(how, k, claim, res), meta={'operation': 'give-back-' + how, 'spinners': k}, nontrivial=lambda impl: True)
+                    st.res.count('op:give-back-' + how)
     for name, setup, op in OPS:
         for k in (1, 2, 3):
             st.judge_params = str(k)
